@@ -315,7 +315,23 @@ fn outcome_class(o: &StepOut) -> String {
 
 /// Breadth-first search. `check_edge` is the property oracle (returns violations).
 pub fn explore(w: &World, r: usize, cfg: &L1Cfg, check_edge: &(dyn Fn(&Edge) -> Vec<(String, String)> + Sync)) -> L1Result {
-    let alpha = alphabet(w, r, cfg);
+    explore_alphabet(w, r, cfg, alphabet(w, r, cfg), check_edge)
+}
+
+/// The vote-by-vote alphabet: commit votes for block (0, X) and plain timeout votes of every other
+/// validator for the current and future views, and the view timer. Certificates (also for FUTURE
+/// views) then form inside the replica, vote by vote, within three steps.
+pub fn votes_alphabet(w: &World, r: usize, cfg: &L1Cfg) -> Vec<(String, Input)> {
+    alphabet(w, r, cfg)
+        .into_iter()
+        .filter(|(d, _)| {
+            (d.starts_with("commit vote(") && d.contains(",b0 X)") || d.starts_with("timeout vote(") && d.contains(",plain)") || d == "view timer fires") && !d.contains("[flood]") && !d.contains("non-member")
+        })
+        .collect()
+}
+
+/// Same search over a caller-supplied alphabet (replays use the full alphabet, a superset).
+pub fn explore_alphabet(w: &World, r: usize, cfg: &L1Cfg, alpha: Vec<(String, Input)>, check_edge: &(dyn Fn(&Edge) -> Vec<(String, String)> + Sync)) -> L1Result {
     // finalized blocks that block sync may deliver while a handler waits
     let env: Vec<usize> = (0..w.n()).filter(|i| *i != r).collect();
     let full_mask: u32 = env.iter().fold(0, |m, i| m | 1 << i);
